@@ -150,7 +150,9 @@ impl OutputFormat for IceDraw {
             return Err(anyhow::anyhow!("invalid bounds for idf width needs to be >=0."));
         }
 
+        // the width in the IDF header is authoritative (a SAUCE record of the BIN type can only carry even widths)
         result.set_width(x2 - x1 + 1);
+        result.layers[0].set_width(x2 - x1 + 1);
         let data_size = data.len() - FONT_SIZE - PALETTE_SIZE;
         let mut pos = Position::new(x1, y1);
 
